@@ -118,6 +118,7 @@ type VC struct {
 	Errors         []string // contract does not apply (UNDECIDED)
 	exits          []*Term  // reach terms of normal returns
 	loopGuards     []*Term
+	loopGuardNames []string
 	oblNames       map[string]int
 	frames         int
 	axiomsDone     bool
